@@ -656,7 +656,10 @@ BOUNDS = dict(
           '(n_ids configured, n_samples) in {(1,1),(2,2),(1,2),(3,2),(2,1)}; '
           'posteriors with <= 2 chains x 2 draws x 2 individuals, default / '
           'named individual, individual- and population-level scale; prior '
-          'predictive with 1-2 samples; PAM with 2 models and 1-2 samples and with 3 models and 3 samples',
+          'predictive with 1-2 samples; PAM with 2 models and 1-2 samples and with 3 models and 3 samples; '
+          'dose-event rows of PredictiveModel / PopulationPredictiveModel '
+          'tables for 6 regimens (single, several, periodic finite and '
+          'indefinite, after the last time, none) x n_samples None/1/2/3',
     thorough='more time vectors, a third of all two-unit population '
              'compositions, 2 chains x 3 draws, PAM with 3 samples',
     outside='larger tables; the pseudo-random bit generator; pandas/xarray '
